@@ -1,7 +1,11 @@
 package checks
 
 import (
+	"context"
 	"fmt"
+	pb "github.com/wealdtech/eth2-signer-api/pb/v1"
+	"google.golang.org/grpc"
+	"sort"
 	"strings"
 	"sync/atomic"
 	"time"
@@ -320,13 +324,19 @@ func C16(tier string) int {
 		run.HarnessErr = err
 		return run.Finish()
 	}
+	wire, err := c16OverTheWire(run)
+	if err != nil {
+		run.HarnessErr = err
+		return run.Finish()
+	}
 	run.Coverage = map[string]any{
+		"over_the_wire":                 wire,
 		"states":                        r.States,
 		"transitions":                   r.Transitions,
 		"traces_validated_against_impl": r.Transitions,
 		"evaluations":                   r.Transitions*(len(c16NonPeers)*len(c16Msgs)+3) + nc,
 		"distinct_nontrivial":           r.States,
-		"rule":                          "BFS over protocol events (prepare on all, execute on each instance, commit on all, abort on all) of a real three-instance cluster (plus configured peer 4 that is not a participant); a state is the session table of the three instances and account existence; in every reachable state every non-peer identity (a client with full permissions, empty, unknown, case variant, trailing-space variant, unconfigured signer name) sends every protocol message to instance 2 through its real receiver handler: it must be refused and the state must not change; in every state with an active session the reply to a contribution authenticated as peer j must be the share at j's identifier and nobody else's; plus: a generation still completes consistently when a non-peer message arrives just before each phase",
+		"rule":                          "BFS over protocol events (prepare on all, execute on each instance, commit on all, abort on all) of a real three-instance cluster (plus configured peer 4 that is not a participant); a state is the session table of the three instances and account existence; in every reachable state every non-peer identity (a client with full permissions, empty, unknown, case variant, trailing-space variant, unconfigured signer name) sends every protocol message to instance 2 through its real receiver handler: it must be refused and the state must not change; in every state with an active session the reply to a contribution authenticated as peer j must be the share at j's identifier and nobody else's; plus: a generation still completes consistently when a non-peer message arrives just before each phase; plus, over mutual TLS against a real API server: callers whose certificates (from the configured authority) are not a peer's (an ordinary client's; no common name and a peer's name as first DNS name; a client's with a peer's name as DNS name; a client's followed by a peer's public certificate; a peer's name with a letter added) send every message with and without a session prepared by a genuine peer",
 		"samples":                       samples.List(),
 		"exhaustive":                    !r.BudgetHit,
 		"depth_completed":               r.DepthDone,
@@ -335,10 +345,109 @@ func C16(tier string) int {
 		"identity_message_cells":        r.Transitions * len(c16NonPeers) * len(c16Msgs),
 		"completion_cells":              nc,
 	}
-	run.Assumptions = []string{"identity is what ClientInfoInterceptor puts in the context (C19 checks that it is the verified certificate's subject name)"}
+	run.Assumptions = []string{"in the BFS the identity is what ClientInfoInterceptor puts in the context; the over-the-wire phase goes through the interceptor with five kinds of certificate (C19 checks more)"}
 	return run.Finish()
 }
 
 func init() {
 	Registry["C16"] = C16
+}
+
+// c16OverTheWire: the same refusal, from the certificate to the session table. Three real instances with real API
+// servers (own authority, mutual TLS); callers hold certificates issued by that authority which are not a peer's:
+// an ordinary client's, one without a common name whose first DNS name is a peer's name, and an ordinary client's
+// followed by a peer's public certificate. Each sends every protocol message to instance 1, with no session and with a
+// session that a genuine peer has prepared; it must be refused and the session table must not change. A genuine peer's
+// prepare is the control.
+func c16OverTheWire(run *ev.Run) (map[string]any, error) {
+	nc, err := rig.NewNetCluster([]uint64{1, 2, 3})
+	if err != nil {
+		return nil, err
+	}
+	defer nc.Close()
+	node := nc.Nodes[1]
+	peerName := nc.Nodes[2].Name
+	var parts []*pb.Endpoint
+	for _, id := range nc.IDs {
+		parts = append(parts, &pb.Endpoint{Id: id, Name: nc.Nodes[id].Name, Port: uint32(nc.Nodes[id].Port)})
+	}
+	sessions := func() string {
+		var l []string
+		for _, s := range node.Rig.RealProcess.VerifSessions() {
+			l = append(l, fmt.Sprintf("%s t=%d contributed=%v", s.Account, s.Threshold, s.Contributed))
+		}
+		sort.Strings(l)
+		return strings.Join(l, ";")
+	}
+	callers := []struct {
+		name string
+		cert rig.CallerCert
+	}{
+		{"a certificate CN=" + rig.DefaultClient + " (an ordinary client with full permissions)", rig.CallerCert{CommonName: rig.DefaultClient}},
+		{"a certificate without a common name whose first DNS name is peer 2's name", rig.CallerCert{DNS: []string{peerName, "client"}}},
+		{"a certificate CN=" + rig.DefaultClient + " whose DNS name is peer 2's name", rig.CallerCert{CommonName: rig.DefaultClient, DNS: []string{peerName}}},
+		{"a certificate CN=" + rig.DefaultClient + " presented with peer 2's public certificate behind it", rig.CallerCert{CommonName: rig.DefaultClient, AppendCertOf: 2}},
+		{"a certificate CN=" + peerName + "x (a peer's name with a letter added)", rig.CallerCert{CommonName: peerName + "x"}},
+	}
+	cells := 0
+	acct := func(i int) string { return fmt.Sprintf("%s/wire-%d", rig.DistWallet, i) }
+	call := func(cc *grpc.ClientConn, msg, account string) error {
+		ctx, cancel := context.WithTimeout(context.Background(), 20*time.Second)
+		defer cancel()
+		d := pb.NewDKGClient(cc)
+		var err error
+		switch msg {
+		case "prepare":
+			_, err = d.Prepare(ctx, &pb.PrepareRequest{Account: account, Threshold: 2, Participants: parts, Passphrase: []byte("pass")})
+		case "execute":
+			_, err = d.Execute(ctx, &pb.ExecuteRequest{Account: account})
+		case "contribute":
+			p := rig.NewPoly(2)
+			sh := p.Share(1)
+			_, err = d.Contribute(ctx, &pb.ContributeRequest{Account: account, Secret: sh.Serialize(), VerificationVector: [][]byte{p.VVec[0].Serialize(), p.VVec[1].Serialize()}})
+		case "commit":
+			_, err = d.Commit(ctx, &pb.CommitRequest{Account: account, ConfirmationData: pat(1)})
+		case "abort":
+			_, err = d.Abort(ctx, &pb.AbortRequest{Account: account})
+		}
+		return err
+	}
+	// Control: a genuine peer prepares a session.
+	peer, err := nc.DialAsNode(1, 2)
+	if err != nil {
+		return nil, err
+	}
+	defer peer.Close()
+	if err := call(peer, "prepare", acct(0)); err != nil {
+		return nil, fmt.Errorf("over the wire: the prepare of a genuine peer was refused: %v", err)
+	}
+	if !strings.Contains(sessions(), acct(0)) {
+		return nil, fmt.Errorf("over the wire: a genuine peer's prepare left no session")
+	}
+	for ci, c := range callers {
+		cc, err := nc.DialAs(1, c.cert)
+		if err != nil {
+			return nil, err
+		}
+		for _, target := range []string{acct(0), acct(100 + ci)} {
+			for _, msg := range c16Msgs {
+				before := sessions()
+				err := call(cc, msg, target)
+				after := sessions()
+				cells++
+				what := "with no session for the name"
+				if target == acct(0) {
+					what = "for the name of a session that peer 2 has prepared"
+				}
+				if err == nil {
+					run.Violate(fmt.Sprintf("wire-non-peer-accepted:%s:caller=%d", msg, ci), fmt.Sprintf("over mutual TLS, a %s message %s from a caller holding %s was accepted", msg, what, c.name), map[string]any{"check": "C16", "over_the_wire": true})
+				}
+				if before != after {
+					run.Violate(fmt.Sprintf("wire-non-peer-changed-state:%s:caller=%d", msg, ci), fmt.Sprintf("over mutual TLS, a %s message %s from a caller holding %s changed the session table from {%s} to {%s}", msg, what, c.name, before, after), map[string]any{"check": "C16", "over_the_wire": true})
+				}
+			}
+		}
+		cc.Close()
+	}
+	return map[string]any{"callers": len(callers), "cells": cells}, nil
 }
